@@ -167,8 +167,10 @@ def gen_world(rng, opts=None):
         mv = rng.choice([20, 50, 100, 200, 1000, 5000, 7])
     else:
         mv = rng.choice([12.5, 99.9, 0.75, 250.25, 33.3])
+    use_default = mv == 950 and rng.random() < 0.5
     wl = {
         "max_volume": enc(mv),
+        "max_volume_default": use_default,  # the user script does not pass max_volume at all (library default 950)
         "auto_split": opts.get("auto_split", rng.random() < 0.75),
         "diti_mode": rng.random() < 0.25,
         "path_kind": rng.choice(["str", "Path"]),
@@ -221,7 +223,10 @@ def build_worklist(rt, world, scratch=None, device=None):
             path = pathlib.Path(p)
         else:
             path = p
-    wl = cls(path, max_volume=dec(w["max_volume"]), auto_split=w["auto_split"], diti_mode=w["diti_mode"])
+    if w.get("max_volume_default"):
+        wl = cls(path, auto_split=w["auto_split"], diti_mode=w["diti_mode"])
+    else:
+        wl = cls(path, max_volume=dec(w["max_volume"]), auto_split=w["auto_split"], diti_mode=w["diti_mode"])
     return wl
 
 
